@@ -9,6 +9,9 @@
     P<id>=<name>                       publisher object and its StructName
     h=<name>:<subId>:<subTopic>:<pubSpec>:<pubTopic>:<mwOut>
                                        AddHandler; pubSpec = p<id> | np (AddNoPublisherHandler) | nil (nil publisher)
+    D<id> / E<id>                      AddPublisherDecorators / AddSubscriberDecorators (recording decorator number id)
+    RUN                                Run (first) / RunHandlers (later); handlers declared after it are added to the
+                                       running router; a final RunHandlers is implied before the messages arrive
     d=<subId>:<topic>:<mid>:<shape>[:<ctx>[:<done>]]
                                        a message arrives at (subscriber, topic); shape = E (function errs) | - (no outputs)
                                        | `.`-separated objects c (the consumed message) / f<k> (k-th fresh object);
@@ -17,9 +20,11 @@
                                        k (the function cancels it, then returns) | t (deadline the function overruns)
   observation:
     subs=<total>:<c0>,<c1>,…  orphans=<n>  H<i>:<msg>;<msg>…   (one H block per handler that received something)
-    msg  = <mid>/<fns>/<ctx5>/<A|N|T>/<pubs>        fns = `+`-joined handler indices whose function got the copy, `-` none
+    msg  = <mid>/<fns>/<ctx5>/<A|N|T>/<pubs>/<path>  fns = `+`-joined handler indices whose function got the copy, `-` none
+                                                     path = subscriber decorators the copy passed, `.`-joined, `-` none
     ctx5 = <handler>:<pubName>:<subName>:<subTopic>:<pubTopic>
-    pubs = - | `+`-joined  P<id>@<topic>[<item>,…]   item = <c|f<k>|m<k>|x>~<u|M>~<ctx5>
+    pubs = - | `+`-joined  P<id>@<topic>!<path>[<item>,…]   path = publisher decorators the call passed
+    item = <c|f<k>|m<k>|x>~<u|M>~<ctx5>~<owner>      owner = whose own context the element's context still derives from
 -/
 import WmModel.Basic
 import WmModel.Route
@@ -50,11 +55,15 @@ def hexOfAscii (s : String) : String := hexEnc s.toUTF8.toList
 def disabledPublisherName : String := hexOfAscii "message.disabledPublisher"
 def nilName : String := hexOfAscii "<nil>"
 
+inductive RawOp | dec (pub : Bool) (id : Nat) | h | run
+
 structure Req where
   subs : List (Nat × String) := []
   pubs : List (Nat × String) := []
   hs   : List HCfg := []
   ds   : List Delivery := []
+  st   : RSt := {}               -- the model's router state (decorators, started handlers)
+  raw  : List RawOp := []        -- the same operations, untouched, for the monitor
 
 def refOf (cs : List Char) : Option Ref :=
   match cs with
@@ -101,14 +110,16 @@ def addTok (r : Req) (tok : String) : Option Req :=
       let mw ← natOf mw
       let (_, sn) ← r.subs.find? (·.1 == sub)
       if r.hs.any (·.name == name) then none else
+      let add (h : HCfg) : Req :=
+        { r with hs := r.hs ++ [h], st := rstep r.st (.addHandler h), raw := r.raw ++ [.h] }
       match ps with
       | ['n', 'p'] => if pt != "" then none else
-          pure { r with hs := r.hs ++ [⟨name, sub, st, sn, none, "", disabledPublisherName, mw, true⟩] }
-      | ['n', 'i', 'l'] => pure { r with hs := r.hs ++ [⟨name, sub, st, sn, none, pt, nilName, mw, false⟩] }
+          pure (add ⟨name, sub, st, sn, none, "", disabledPublisherName, mw, true⟩)
+      | ['n', 'i', 'l'] => pure (add ⟨name, sub, st, sn, none, pt, nilName, mw, false⟩)
       | 'p' :: p => do
         let p ← natOf p
         let (_, pn) ← r.pubs.find? (·.1 == p)
-        pure { r with hs := r.hs ++ [⟨name, sub, st, sn, some p, pt, pn, mw, false⟩] }
+        pure (add ⟨name, sub, st, sn, some p, pt, pn, mw, false⟩)
       | _ => none
     | _ => none
   | ['d'] :: [body] =>
@@ -135,6 +146,13 @@ def addTok (r : Req) (tok : String) : Option Req :=
       let dn ← doneOf dn
       pure { r with ds := r.ds ++ [⟨sub, t, mid, sh, cx, dn⟩] }
     | _ => none
+  | [['R', 'U', 'N']] => pure { r with st := rstep r.st .runHandlers, raw := r.raw ++ [.run] }
+  | [('D' :: id)] => do
+    let id ← natOf id
+    pure { r with st := rstep r.st (.pubDec id), raw := r.raw ++ [.dec true id] }
+  | [('E' :: id)] => do
+    let id ← natOf id
+    pure { r with st := rstep r.st (.subDec id), raw := r.raw ++ [.dec false id] }
   | ('S' :: id) :: [name] => do
     let id ← natOf id
     let name ← strOf name
@@ -155,22 +173,27 @@ def ctx5Str (c : Ctx5) : String :=
 def refStr : Ref → String
   | .consumed => "c" | .fresh k => "f" ++ toString k | .mw k => "m" ++ toString k
 
-def callStr (c : PubCall) : String :=
-  "P" ++ toString c.pub ++ "@" ++ tokOfStr c.topic ++ "[" ++
-    ",".intercalate (c.items.map fun (r, x) => refStr r ++ "~u~" ++ ctx5Str x) ++ "]"
+def pathStr (p : List Nat) : String := if p.isEmpty then "-" else ".".intercalate (p.map toString)
 
-def resultStr (hs : List HCfg) (r : Result) : String :=
+def callStr (path : List Nat) (c : PubCall) : String :=
+  "P" ++ toString c.pub ++ "@" ++ tokOfStr c.topic ++ "!" ++ pathStr path ++ "[" ++
+    ",".intercalate ((c.items.zip c.owners).map fun ((r, x), o) =>
+      refStr r ++ "~u~" ++ ctx5Str x ++ "~" ++ (match o with | some y => refStr y | none => "-")) ++ "]"
+
+def resultStr (hs : List HCfg) (rh : RH) (r : Result) : String :=
   let fnIdx := match hs.findIdx? (·.name == r.fn) with | some i => toString i | none => "?"
   "/".intercalate [toString r.mid, fnIdx, ctx5Str r.inCtx,
     (match r.settle with | .ack => "A" | .nack => "N"),
-    (if r.calls.isEmpty then "-" else "+".intercalate (r.calls.map callStr))]
+    (if r.calls.isEmpty then "-" else "+".intercalate (r.calls.map (callStr rh.pubPath))),
+    pathStr rh.subPath]
 
 def model (q : Req) : String :=
   let calls := subscribeCalls q.hs
   let subs := "subs=" ++ toString calls.length ++ ":" ++
     ",".intercalate (q.hs.map fun h => toString (calls.count (h.sub, h.subTopic)))
-  let blocks := ((route q.hs q.ds).zipIdx.filter fun ((_, rs), _) => !rs.isEmpty).map fun ((_, rs), i) =>
-    "H" ++ toString i ++ ":" ++ ";".intercalate (rs.map (resultStr q.hs))
+  let st := rstep q.st .runHandlers     -- whatever is not started yet is started before the messages arrive
+  let blocks := (((route q.hs q.ds).zip st.hs).zipIdx.filter fun (((_, rs), _), _) => !rs.isEmpty).map
+    fun (((_, rs), rh), i) => "H" ++ toString i ++ ":" ++ ";".intercalate (rs.map (resultStr q.hs rh))
   " ".intercalate ([subs, "orphans=0"] ++ blocks)
 
 /-! ### the property, evaluated on an observation – written without `handleOne` / `route` / `addHandlerContext` -/
@@ -179,10 +202,12 @@ structure OItem where
   ref : String
   flag : String
   ctx : List String
+  owner : String
 
 structure OCall where
   pub : String
   topic : String
+  path : String
   items : List OItem
 
 structure OMsg where
@@ -191,10 +216,11 @@ structure OMsg where
   ctx : List String
   settle : String
   calls : List OCall
+  subPath : String
 
 def parseItem (cs : List Char) : Option OItem :=
   match splitOnChar '~' cs with
-  | [r, f, c] => some ⟨String.ofList r, String.ofList f, (splitOnChar ':' c).map String.ofList⟩
+  | [r, f, c, o] => some ⟨String.ofList r, String.ofList f, (splitOnChar ':' c).map String.ofList, String.ofList o⟩
   | _ => none
 
 def parseCall (cs : List Char) : Option OCall :=
@@ -203,24 +229,24 @@ def parseCall (cs : List Char) : Option OCall :=
     match splitOnChar '@' rest with
     | [p, tail] =>
       match splitOnChar '[' tail with
-      | [t, its] =>
-        match its.reverse with
-        | ']' :: body =>
+      | [tp, its] =>
+        match splitOnChar '!' tp, its.reverse with
+        | [t, path], ']' :: body =>
           let body := body.reverse
-          if body.isEmpty then some ⟨String.ofList p, String.ofList t, []⟩
-          else ((splitOnChar ',' body).mapM parseItem).map fun is => ⟨String.ofList p, String.ofList t, is⟩
-        | _ => none
+          if body.isEmpty then some ⟨String.ofList p, String.ofList t, String.ofList path, []⟩
+          else ((splitOnChar ',' body).mapM parseItem).map fun is => ⟨String.ofList p, String.ofList t, String.ofList path, is⟩
+        | _, _ => none
       | _ => none
     | _ => none
   | _ => none
 
 def parseMsg (cs : List Char) : Option OMsg :=
   match splitOnChar '/' cs with
-  | [mid, fns, ctx, st, pubs] => do
+  | [mid, fns, ctx, st, pubs, sp] => do
     let mid ← natOf mid
     let fns := if fns == ['-'] then [] else (splitOnChar '+' fns).map String.ofList
     let calls ← if pubs == ['-'] then some [] else (splitOnChar '+' pubs).mapM parseCall
-    pure ⟨mid, fns, (splitOnChar ':' ctx).map String.ofList, String.ofList st, calls⟩
+    pure ⟨mid, fns, (splitOnChar ':' ctx).map String.ofList, String.ofList st, calls, String.ofList sp⟩
   | _ => none
 
 def parseBlock (tok : String) : Option (Nat × List OMsg) :=
@@ -245,10 +271,27 @@ def ctxOk (h : HCfg) (c : List String) : Bool :=
       (h.pub.isNone || pn == tokOfStr h.pubName)
   | _ => false
 
-def judgeMsg (i : Nat) (h : HCfg) (d : Delivery) (m : OMsg) : String :=
+/-- decorators registered before the `RunHandlers` call that starts handler number `i`: (publisher, subscriber) -/
+def expectedDecs (raw : List RawOp) (i : Nat) : List Nat × List Nat := Id.run do
+  let mut seen := 0
+  let mut added := false
+  let mut pd : List Nat := []
+  let mut sd : List Nat := []
+  for o in raw do
+    match o with
+    | .h =>
+      if seen == i then added := true
+      seen := seen + 1
+    | .run => if added then return (pd, sd)
+    | .dec true id => pd := pd ++ [id]
+    | .dec false id => sd := sd ++ [id]
+  return (pd, sd)
+
+def judgeMsg (i : Nat) (h : HCfg) (pd sd : List Nat) (d : Delivery) (m : OMsg) : String :=
   if m.mid != d.mid then "violated:routing"
   else if m.settle == "T" && m.fns.isEmpty then "violated:not_delivered"
   else if m.fns != [toString i] then "violated:wrong_function"
+  else if m.subPath != pathStr sd then "violated:subscriber_decorators_once"
   else if !ctxOk h m.ctx then "violated:ctx_in_handler"
   else
     -- objects the chain returned: what the function returned, then what the handler's middleware added
@@ -272,6 +315,8 @@ def judgeMsg (i : Nat) (h : HCfg) (d : Delivery) (m : OMsg) : String :=
         else if m.calls.any (·.topic != tokOfStr h.pubTopic) then "violated:publish_topic"
         else if items.map (·.ref) != outs then "violated:publish_order_or_identity"
         else if items.any (·.flag != "u") then "violated:modified"
+        else if m.calls.any (·.path != pathStr pd) then "violated:publisher_decorators_once"
+        else if items.any (fun it => it.owner != it.ref) then "violated:context_replaced"
         else if items.any (fun it => !ctxOk h it.ctx) then "violated:ctx_on_produced"
         else "ok"
 
@@ -296,7 +341,8 @@ def monitor (q : Req) (obs : List String) : String := Id.run do
       let got := match parsed.find? (·.1 == i) with | some (_, ms) => ms | none => []
       if got.length != want.length then return "violated:routing"
       for (d, m) in want.zip got do
-        let v := judgeMsg i h d m
+        let (pd, sd) := expectedDecs q.raw i
+        let v := judgeMsg i h pd sd d m
         if v != "ok" then return v
       i := i + 1
     return "ok"
